@@ -66,7 +66,9 @@ class C14(CFGProp):
         return [Layer("CFG(2,2,2,<=4)", lambda: G.cfg_cases(2, 2, 2, 0, 4), rep=G.is_rep),
                 Layer("CFG(2,2,3,<=3)", lambda: G.cfg_cases(2, 2, 3, 0, 3), rep=G.is_rep, policies=few),
                 Layer("CFG(3,2,2,<=3)", lambda: G.cfg_cases(3, 2, 2, 0, 3), rep=G.is_rep, policies=few),
-                Layer("CFG(3,1,2,4)", lambda: G.cfg_cases(3, 1, 2, 4, 4), rep=G.is_rep, policies=few)]
+                Layer("CFG(3,1,2,4)", lambda: G.cfg_cases(3, 1, 2, 4, 4), rep=G.is_rep, policies=few),
+                Layer("CFG(3,2,2,4)", lambda: G.cfg_cases(3, 2, 2, 4, 4), rep=G.is_rep, policies=few[:2]),
+                Layer("CFG(2,2,2,5)", lambda: G.cfg_cases(2, 2, 2, 5, 5), rep=G.is_rep, policies=few[:2])]
 
     def reference(self, case):
         r = self.ref_gram(case, "plain")
